@@ -96,6 +96,13 @@ CHECKS = {
             "Each of >4k structured strings and >4k (quick) / >40k (thorough) random mutations is decoded by the real code with panics, arithmetic overflow "
             "(dev profile), allocation volume and time observed, and judged by TLC.",
             "Totality is observed on the explored inputs; the allocation envelope constant (64x + 16 KiB) is part of the spec."),
+    "C16": ("DESIGN.md#c16--fallible-public-operations-reject-bad-arguments-with-errors",
+            "TLA+ argument-domain predicates per constructor/operation over exact big integers (ApiDomain.tla); TLC judges every case of the boundary lattice; "
+            "the harness executes each case on the real API in a journaling child process (catch_unwind, overflow checks, allocation cap) and must observe the "
+            "judged class, incl. usability of accepted instances",
+            "About 1 900 boundary cases over all Result-returning constructors and protocol operations of Prio3, Prio2, Poplar1, the FLP types and DP; each must "
+            "behave as ApiDomain.tla says: Err cases return an error (never a panic, overflow, abort or unusable instance), Ok cases yield an instance that works.",
+            "Lattice, not all of usize; allocation-heavy follow-ups only within the memory budget."),
 }
 
 NOT_YET = {}
